@@ -88,7 +88,8 @@ namespace {
           r = "skip"; // an engine id names one engine for the whole history
         } else {
           used[e] = true;
-          g_eng[e] = new (g_arena[a].bytes) ChaiScript_Basic(Std_Lib::library(), std::make_unique<Parser_Opt>());
+          // constructed on the thread the history names (main or a long-lived worker)
+          on_thread(ws, t, [&] { g_eng[e] = new (g_arena[a].bytes) ChaiScript_Basic(Std_Lib::library(), std::make_unique<Parser_Opt>()); });
         }
       } else if (!g_eng[e]) {
         r = "skip";
@@ -108,6 +109,8 @@ namespace {
       } else if (k == "def") {
         try {
           g_eng[e]->eval("def " + n + "() { " + std::to_string(e) + " }");
+        } catch (const exception::eval_error &ee) {
+          r = ee.reason.find("redefined") != std::string::npos ? "redefined" : "err:" + ee.reason;
         } catch (const std::exception &ex) {
           r = std::string("err:") + ex.what();
         }
